@@ -496,7 +496,9 @@ func (e *Evaluator) evalUnaryExpr(expr *ExprUnary) (*Cell, error) {
 		if expr.Postfix {
 			return NewCell(NewValue(v)), nil
 		}
-		return NewCell(val.Value), nil
+		// the operand cell may be detached from the location that was stored to
+		// (an index past the end of an array), so yield the stored value itself
+		return NewCell(newValue), nil
 	default:
 		return nil, e.error(expr.OpToken, fmt.Sprintf("unknown operator %s", expr.OpToken.Tag))
 	}
